@@ -13,7 +13,7 @@ C15 driver.  One request per line:
   ft   ::= none | (error k) | (panic k)
   act  ::= (s m) | d | a | r | c
 
-Answers:  `err -` | `ok <rows|?> <same|diff> <dml>` with dml ::= `-` | `none` | `commit <rows|?> <same|diff>`
+Answers:  `err -` | `ok <rows|?> <same|diff> <pfx|nopfx> <dml>` with dml ::= `-` | `none` | `commit <rows|?> <same|diff>`
 (`same`/`diff`: equal to the model's own fault-free run), for `chan`: `sent … got … queue <n> active <n>`.
 -/
 open RlModel RlModel.Strm
@@ -67,12 +67,23 @@ def rowsStr (cs : List Ck) : String :=
 
 def sameStr {β : Type} [BEq β] (a b : β) : String := if a == b then "same" else "diff"
 
-def outStr (r r0 : Except Nat (List Ck)) : String :=
+/-- Only `leaf` / `stream` / `limit` nodes: a chain of order-preserving streaming executors
+(`Plan.StreamChain`), for which `stream_chain_prefix` gives the rows, in order. -/
+partial def chain? (s : Sexp) : Bool :=
+  match s with
+  | .list (.atom "leaf" :: _) => true
+  | .list [.atom "stream", _, _, _, _, c] => chain? c
+  | .list [.atom "limit", _, _, _, _, c] => chain? c
+  | _ => false
+
+def outStr (chain : Bool) (r r0 : Except Nat (List Ck)) : String :=
   match r with
   | .error _ => "err"
   | .ok cs =>
     let same := match r0 with | .ok cs0 => cs == cs0 | .error _ => false
-    s!"ok {rowsStr cs} {if same then "same" else "diff"}"
+    -- `pfx`: the rows are exactly the first rows of the fault-free answer (known content, prefix)
+    let pfx := chain && match r0 with | .ok cs0 => cs.all (·.exact) && cs.isPrefixOf cs0 | .error _ => false
+    s!"ok {rowsStr cs} {if same then "same" else "diff"} {if pfx then "pfx" else "nopfx"}"
 
 def chanAct? (s : Sexp) : Option (ChanAct Nat) :=
   match s with
@@ -89,7 +100,7 @@ def answer (line : String) : String :=
   match Sexp.parse line with
   | some (.list [.atom "query", t]) =>
     match tree? t with
-    | some p => s!"{outStr p.run p.clean.run} -"
+    | some p => s!"{outStr (chain? t) p.run p.clean.run} -"
     | none => "bad-request"
   | some (.list [.atom "dml", id, ft, t]) =>
     match nat? id, ft? ft, tree? t with
@@ -100,7 +111,7 @@ def answer (line : String) : String :=
       let d := match r.committed with
         | none => "none"
         | some cs => s!"commit {rowsStr cs} {sameStr (some cs) r0.committed}"
-      s!"{outStr r.out r0.out} {d}"
+      s!"{outStr false r.out r0.out} {d}"
     | _, _, _ => "bad-request"
   | some (.list (.atom "chan" :: cap :: acts)) =>
     match nat? cap, acts.mapM chanAct? with
